@@ -489,7 +489,9 @@ fn data_holders(cg: &syn::File, all: &ImplFns, notes: &mut Vec<String>) -> Resul
                     for id in me.idents {
                         if let Some(j) = locals.0[..limit].iter().rposition(|(ids, _)| ids.contains(&id)) {
                             work.push((locals.0[j].1.clone(), j));
-                        } else if bound.contains(&id) {
+                        } else if bound.contains(&id) && limit == site {
+                            // named directly in the baked expression (not reached through a local:
+                            // bytes copied out of the instruction into host memory are host data)
                             from_ir = true;
                         }
                     }
